@@ -748,6 +748,18 @@ def c11(ctx):
     cases = [conv_case(c) for c in convs]
     for conv in small_convs(ctx, 10 if quick else 60, max_bytes=1500):
         cases += corruptions(rng, conv, 15 if quick else 100)
+    # the same requests under every other version the dissector has a layout for (the body is then
+    # decoded by another layout: whatever it makes of it must survive the stages)
+    seen = set()
+    for conv in convs:
+        ex = conv["exch"][0]
+        if not ex["supported"] or ex["name"] in seen or conv["kind"] != "grid":
+            continue
+        seen.add(ex["name"])
+        for v in range(0, 14):
+            c = bytearray.fromhex(conv["client"])
+            c[conv["req_at"][0] + 6:conv["req_at"][0] + 8] = struct.pack(">h", v)
+            cases.append(case(c.hex(), conv["server"]))
     res = run(ctx, cases, mode="stage")
     nviol, nitems = 0, 0
     for c, r in zip(cases, res):
